@@ -12,7 +12,11 @@
   invokable / streamable form.  Tools and the handler are arbitrary functions.
 -/
 import EinoV.Model.C17
+import EinoV.Model.C17Late
 import EinoV.Proofs.C17
+import EinoV.Proofs.C17Late
+import EinoV.Model.C17Utils
+import EinoV.Proofs.C17Utils
 import EinoV.Gen.FactsC17
 import EinoV.Expected.C17
 
@@ -374,5 +378,287 @@ theorem empty_stream_disagrees :
     (match stream exFacts ts none true calls id [0, 1] with
       | .ok srcs => (collect (mergeBy [] srcs)).toOption
       | _ => none) = some [some ⟨"c0", "Ax"⟩, none] := by decide
+
+/-! ## family `late`: tools still producing after the handover, looking at their context
+
+  `streamL … paces prod cancel` is `ToolsNode.Stream` when the streamable tool of call `i`
+  sends only its first `(paces i).hold` chunks before `StreamableRun` returns and the others
+  afterwards, one per step, looking at the context it was given before each (finding it
+  done it fails the stream with the context's error / ends it / goes on, `onDone`); `prod`
+  orders the late steps of all producers; `cancel = some c`: the caller cancels its context
+  after `c` steps.  Model: EinoV/Model/C17Late.lean. -/
+
+/-- the context facts regenerated from /repo -/
+def genCtxFacts : CtxFacts :=
+  { notScoped := FactsC17.toolCtxNotScoped, fromCaller := FactsC17.toolCtxFromCaller }
+
+/-- Source fact tie: the tools run under the caller's context (only value-derivations on the
+    way), and nothing on the way derives a context that the node itself ends. -/
+theorem ctx_facts_match : genCtxFacts = Expected.C17.ctxFacts := by decide
+
+theorem genCtxFacts_good : genCtxFacts.Good := ⟨by decide, by decide⟩
+
+/-- **late_production_invisible.** For EVERY input (any role, calls, tools, handler,
+    completion order), every pacing of every call, every production order: as long as the
+    caller does not cancel, the streams a tools node hands out deliver exactly the chunks of
+    the eager form — a tool that is still producing when `Stream` returns, and that honours
+    its context, is never cut short by anything the node does. -/
+theorem late_production_invisible (assistant : Bool) (calls : List Call) (seen : Nat → Nat)
+    (σ : List Nat) (paces : Nat → Option Pace) (prod : List Nat) :
+    streamL genFacts genCtxFacts tools handler assistant calls seen σ paces prod none
+      = (stream genFacts tools handler assistant calls seen σ).map
+          (fun srcs => srcs.map (·.map .chunk)) := by
+  unfold streamL
+  congr 1
+  funext srcs
+  exact deliver_alive _ _ _ _ (fun t => by rw [ctxDone_good genCtxFacts_good, cancelledAt_none]) srcs
+
+/-- **late_stream_agrees.** `tools_stream_agrees` for late producers: under its hypotheses,
+    for every pacing, every production order and all completion orders, Stream succeeds,
+    every source delivers all its chunks and no error item, and every interleaving of them
+    concatenates to exactly the list Invoke returns. -/
+theorem late_stream_agrees (calls : List Call) (hne : calls ≠ []) (cs : Call → List String)
+    (hall : ∀ c ∈ calls, answerS tools handler c = some (.ok (cs c)) ∧ cs c ≠ [])
+    (hcoh : ∀ c ∈ calls, Coherent (pick tools handler c))
+    (seen seen' : Nat → Nat) (σ σ' : List Nat)
+    (hσ : σ.Perm (List.range calls.length)) (hσ' : σ'.Perm (List.range calls.length))
+    (paces : Nat → Option Pace) (prod : List Nat) :
+    ∃ srcs, streamL genFacts genCtxFacts tools handler true calls seen' σ' paces prod none
+        = .ok (srcs.map (·.map .chunk)) ∧
+      invoke genFacts tools handler true calls seen σ
+        = .ok (calls.map fun c => ⟨c.id, joinS (cs c)⟩) ∧
+      ∀ m, Interleaving srcs m →
+        collect m = .ok ((calls.map fun c => (⟨c.id, joinS (cs c)⟩ : Msg)).map some) := by
+  obtain ⟨srcs, hs, hi, hm⟩ := tools_stream_agrees tools handler calls hne cs hall hcoh seen seen' σ σ' hσ hσ'
+  refine ⟨srcs, ?_, hi, hm⟩
+  rw [late_production_invisible, hs]
+  rfl
+
+/-- **cancelled_stream_is_prefix.** For every input and every cancellation point: each
+    source still delivers a prefix of its tool's chunks containing at least the eager ones;
+    a source of a tool without streamable form, or whose producer ignores its context,
+    delivers everything; and a source carries the context's error only if its producer
+    fails on a done context AND the caller has cancelled — the node never makes one up. -/
+theorem cancelled_stream_is_prefix (assistant : Bool) (calls : List Call) (seen : Nat → Nat)
+    (σ : List Nat) (paces : Nat → Option Pace) (prod : List Nat) (cancel : Option Nat)
+    (srcs : List (List (List (Option Msg))))
+    (hs : stream genFacts tools handler assistant calls seen σ = .ok srcs) :
+    ∃ dl, streamL genFacts genCtxFacts tools handler assistant calls seen σ paces prod cancel = .ok dl ∧
+      ∃ hl : dl.length = srcs.length, ∀ i (hi : i < srcs.length),
+        chunksOfItems (dl[i]'(hl ▸ hi)) <+: srcs[i] ∧
+        (paceOf tools handler calls paces i = none → dl[i]'(hl ▸ hi) = srcs[i].map .chunk) ∧
+        ∀ p, paceOf tools handler calls paces i = some p →
+          srcs[i].take p.hold <+: chunksOfItems (dl[i]'(hl ▸ hi)) ∧
+          (p.onDone = .ignore → dl[i]'(hl ▸ hi) = srcs[i].map .chunk) ∧
+          (Item.ctxErr ∈ dl[i]'(hl ▸ hi) → p.onDone = .fail ∧ cancel ≠ none) := by
+  refine ⟨_, by unfold streamL; rw [hs]; rfl, length_deliver _ _ _ _ _, fun i hi => ?_⟩
+  rw [getElem_deliver _ _ _ _ _ i hi]
+  cases hp : paceOf tools handler calls paces i with
+  | none =>
+    refine ⟨by simp [chunks_map_chunk], fun _ => rfl, fun p h => (by cases h)⟩
+  | some p =>
+    simp only []
+    refine ⟨(chunks_produce p _ _).1, fun h => (by cases h), fun q hq => ?_⟩
+    cases hq
+    refine ⟨(chunks_produce p _ _).2, fun hi' => produce_ignore p hi' _ _, fun hm => ?_⟩
+    obtain ⟨hf, j, hj⟩ := ctxErr_mem_produce _ _ _ hm
+    refine ⟨hf, fun hc => ?_⟩
+    rw [ctxDone_good genCtxFacts_good, hc, cancelledAt_none] at hj
+    cases hj
+
+/-- **cancel_before_late_steps.** The caller's cancellation does reach the tools: if the
+    caller cancels right after `Stream` returned (before any late step), every producer
+    finds its context done at its first late step — the source delivers the eager chunks
+    and then, if anything was left, what `onDone` says. -/
+theorem cancel_before_late_steps (assistant : Bool) (calls : List Call) (seen : Nat → Nat)
+    (σ : List Nat) (paces : Nat → Option Pace) (prod : List Nat) :
+    streamL genFacts genCtxFacts tools handler assistant calls seen σ paces prod (some 0)
+      = (stream genFacts tools handler assistant calls seen σ).map fun srcs =>
+          srcs.zipIdx.map fun (src, i) =>
+            match paceOf tools handler calls paces i with
+            | none => src.map .chunk
+            | some p =>
+              (src.take p.hold).map .chunk ++
+                match src.drop p.hold with
+                | [] => []
+                | x :: xs =>
+                  match p.onDone with
+                  | .fail => [.ctxErr]
+                  | .stop => []
+                  | .ignore => (x :: xs).map .chunk := by
+  unfold streamL
+  congr 1
+  funext srcs
+  unfold deliver
+  apply List.map_congr_left
+  intro ⟨src, i⟩ _
+  dsimp only
+  cases paceOf tools handler calls paces i with
+  | none => rfl
+  | some p =>
+    simp only [produce]
+    congr 1
+    cases hd : src.drop p.hold with
+    | nil => rfl
+    | cons x xs =>
+      exact lateSteps_done _ _ (fun j => by rw [ctxDone_good genCtxFacts_good, cancelledAt_zero]) 0 x xs
+
+/-- non-vacuity: call 1's tool streams "<", "y", ">" — the first chunk eagerly, the others
+    late; the caller cancels after one late step: "<", "y", then the context's error;
+    call 0 (invokable-only) is not affected -/
+example : streamL exFacts Expected.C17.ctxFacts exTools none true
+      [⟨"c0", "a", "x"⟩, ⟨"c1", "s", "y"⟩] id [1, 0] (fun _ => some ⟨1, .fail⟩) [1, 0, 1] (some 1)
+    = .ok [[.chunk [some ⟨"c0", "Ax"⟩, none]],
+           [.chunk [none, some ⟨"c1", "<"⟩], .chunk [none, some ⟨"c1", "y"⟩], .ctxErr]] := by decide
+
+/-- the same without cancellation: everything is delivered, whatever the script -/
+example : streamL exFacts Expected.C17.ctxFacts exTools none true
+      [⟨"c0", "a", "x"⟩, ⟨"c1", "s", "y"⟩] id [1, 0] (fun _ => some ⟨0, .stop⟩) [7, 1] none
+    = .ok [[.chunk [some ⟨"c0", "Ax"⟩, none]],
+           [.chunk [none, some ⟨"c1", "<"⟩], .chunk [none, some ⟨"c1", "y"⟩],
+            .chunk [none, some ⟨"c1", ">"⟩]]] := by decide
+
+/-- (negation witness) a context scoped to the fan-out — cancelled when the calls have
+    returned — cuts a tool that is still producing: the streamed form ends in the context's
+    error after the eager chunk although nobody cancelled, while Invoke returns the full
+    answer. -/
+theorem scoped_context_breaks :
+    let CF : CtxFacts := { Expected.C17.ctxFacts with notScoped := false }
+    let calls : List Call := [⟨"c0", "a", "x"⟩, ⟨"c1", "s", "y"⟩]
+    streamL exFacts CF exTools none true calls id [0, 1] (fun _ => some ⟨1, .fail⟩) [1, 1] none
+      = .ok [[.chunk [some ⟨"c0", "Ax"⟩, none]], [.chunk [none, some ⟨"c1", "<"⟩], .ctxErr]] ∧
+    invoke exFacts exTools none true calls id [0, 1] = .ok [⟨"c0", "Ax"⟩, ⟨"c1", "<y>"⟩] := by decide
+
+/-- (negation witness) a context detached from the caller's: the caller cancels before any
+    late step and the producer, which would fail on a done context, never notices. -/
+theorem detached_context_breaks :
+    let CF : CtxFacts := { Expected.C17.ctxFacts with fromCaller := false }
+    streamL exFacts CF exTools none true [⟨"c0", "s", "y"⟩] id [0] (fun _ => some ⟨0, .fail⟩) [] (some 0)
+      = .ok [[.chunk [some ⟨"c0", "<"⟩], .chunk [some ⟨"c0", "y"⟩], .chunk [some ⟨"c0", ">"⟩]]] := by decide
+
+/-! ## family `utils`: tools built by components/tool/utils decode each call's own arguments
+
+  `mixed` is the configured tool list, each entry hand-written (`.inl`, a `Tool`) or built by
+  `InferTool` / `NewTool` / `InferStreamTool` / `NewStreamTool` (`.inr`, a `UTool`: the user's
+  function over the decoded request, request type struct / pointer / map).
+  `mixedTools UF parse prior calls δ mixed` is the list as the node runs it when the calls
+  `prior` of earlier messages went through the same tools and the calls of this message
+  decode in the order `δ`; `parse` (arbitrary) gives the fields an argument string carries.
+  Model: EinoV/Model/C17Utils.lean. -/
+
+def genUFacts : UFacts := { freshPerCall := FactsC17.utilsFreshRequestPerCall }
+
+/-- Source fact tie: the utils wrappers decode into an object made inside the call. -/
+theorem utils_facts_match : genUFacts = Expected.C17.ufacts := by decide
+
+theorem genUFacts_good : genUFacts.Good := by unfold UFacts.Good; decide
+
+/-- **utils_tools_stateless.** For every tool list, every history of earlier messages, every
+    call list and every order in which the overlapping calls decode: a utils-built tool is
+    the pure function "the user's function on the request decoded from THIS argument string,
+    absent fields zero" — nothing decoded for another call is visible. -/
+theorem utils_tools_stateless (parse : String → Args) (prior calls : List Call) (δ : List Nat)
+    (mixed : List (String × MixedTool)) :
+    mixedTools genUFacts parse prior calls δ mixed = pureTools parse mixed :=
+  mixedTools_fresh genUFacts_good parse prior calls δ mixed
+
+/-- **utils_history_irrelevant.** Hence, for every input, Invoke and Stream return the same
+    whatever went through the tools before and however the calls of the message overlap. -/
+theorem utils_history_irrelevant (parse : String → Args) (mixed : List (String × MixedTool))
+    (assistant : Bool) (calls prior prior' : List Call) (δ δ' : List Nat) (seen : Nat → Nat) (σ : List Nat) :
+    invoke genFacts (mixedTools genUFacts parse prior calls δ mixed) handler assistant calls seen σ
+      = invoke genFacts (mixedTools genUFacts parse prior' calls δ' mixed) handler assistant calls seen σ ∧
+    stream genFacts (mixedTools genUFacts parse prior calls δ mixed) handler assistant calls seen σ
+      = stream genFacts (mixedTools genUFacts parse prior' calls δ' mixed) handler assistant calls seen σ := by
+  rw [utils_tools_stateless, utils_tools_stateless]
+  exact ⟨rfl, rfl⟩
+
+/-- **utils_by_index.** Calls naming utils-built invokable tools (the same tool any number
+    of times, with any arguments): if the user's function answers `v c` on the request
+    decoded from call `c`'s own arguments, then for every history, decode order and
+    completion order Invoke returns one message per call, the i-th with the i-th call's id
+    and `v` of the i-th call. -/
+theorem utils_by_index (parse : String → Args) (mixed : List (String × MixedTool))
+    (calls : List Call) (hne : calls ≠ []) (v : Call → String)
+    (hall : ∀ c ∈ calls, ∃ t f, lookupM mixed c.name = some (.inr t) ∧ t.inv = some f ∧
+      f (decodeFresh (parse c.args)) = .ok (v c))
+    (prior : List Call) (δ : List Nat) (seen : Nat → Nat) (σ : List Nat)
+    (hσ : σ.Perm (List.range calls.length)) :
+    invoke genFacts (mixedTools genUFacts parse prior calls δ mixed) handler true calls seen σ
+      = .ok (calls.map fun c => ⟨c.id, v c⟩) := by
+  rw [utils_tools_stateless]
+  apply tools_by_index _ handler calls hne v _ seen σ hσ
+  intro c hc
+  obtain ⟨t, f, hl, hf, hv⟩ := hall c hc
+  rw [answerI_utils_inv hl hf, hv]
+
+/-- **utils_stream_agrees.** The same for utils-built streamable tools: the streamed form
+    concatenates, under every interleaving, to the list Invoke returns — the i-th message
+    made of the chunks the user's function streams on call i's own decoded arguments. -/
+theorem utils_stream_agrees (parse : String → Args) (mixed : List (String × MixedTool))
+    (calls : List Call) (hne : calls ≠ []) (cs : Call → List String)
+    (hall : ∀ c ∈ calls, ∃ t g, lookupM mixed c.name = some (.inr t) ∧ t.inv = none ∧ t.str = some g ∧
+      g (decodeFresh (parse c.args)) = .ok (cs c) ∧ cs c ≠ [])
+    (prior : List Call) (δ : List Nat) (seen seen' : Nat → Nat) (σ σ' : List Nat)
+    (hσ : σ.Perm (List.range calls.length)) (hσ' : σ'.Perm (List.range calls.length)) :
+    ∃ srcs, stream genFacts (mixedTools genUFacts parse prior calls δ mixed) handler true calls seen' σ'
+        = .ok srcs ∧
+      invoke genFacts (mixedTools genUFacts parse prior calls δ mixed) handler true calls seen σ
+        = .ok (calls.map fun c => ⟨c.id, joinS (cs c)⟩) ∧
+      ∀ m, Interleaving srcs m →
+        collect m = .ok ((calls.map fun c => (⟨c.id, joinS (cs c)⟩ : Msg)).map some) := by
+  rw [utils_tools_stateless]
+  apply tools_stream_agrees _ handler calls hne cs _ _ seen seen' σ σ' hσ hσ'
+  · intro c hc
+    obtain ⟨t, g, hl, _, hg, hv, hn⟩ := hall c hc
+    exact ⟨by rw [answerS_utils_str hl hg, hv], hn⟩
+  · intro c hc
+    obtain ⟨t, g, hl, hi, _, _, _⟩ := hall c hc
+    rw [pick_utils hl]
+    exact coherent_of_no_inv _ (by simp [UTool.pure, hi])
+
+section UtilsExamples
+
+/-- a parser for the examples: "n1" carries n = 1, "n2u" carries n = 2 and u = "F", … -/
+def exParse (s : String) : Args :=
+  if s == "n1" then ⟨none, some 1, none⟩
+  else if s == "n2" then ⟨none, some 2, none⟩
+  else if s == "n3" then ⟨none, some 3, none⟩
+  else if s == "n2u" then ⟨none, some 2, some "F"⟩
+  else if s == "a" then ⟨some "oslo", none, none⟩
+  else ⟨none, none, none⟩
+
+def exShow (r : Req) : String := r.a ++ "/" ++ toString r.n ++ "/" ++ r.u
+
+/-- `scale`: a pointer-typed request, answers with what it finds in it -/
+def exScale : UTool := ⟨.ptr, some fun r => .ok (exShow r), none⟩
+def exScaleS : UTool := ⟨.map, none, some fun r => .ok [r.a, "/", toString r.n]⟩
+def exMixed : List (String × MixedTool) := [("a", .inl (exEcho "A")), ("scale", .inr exScale), ("ss", .inr exScaleS)]
+
+end UtilsExamples
+
+/-- non-vacuity: the same tool three times in one message, whatever the decode order, after
+    an earlier message that set `u`: each answer from its own arguments, absent fields zero -/
+example : invoke exFacts (mixedTools Expected.C17.ufacts exParse [⟨"p0", "scale", "n2u"⟩]
+      [⟨"c0", "scale", "n1"⟩, ⟨"c1", "a", "x"⟩, ⟨"c2", "scale", "n3"⟩, ⟨"c3", "scale", "a"⟩] [3, 2, 0, 1] exMixed)
+    none true [⟨"c0", "scale", "n1"⟩, ⟨"c1", "a", "x"⟩, ⟨"c2", "scale", "n3"⟩, ⟨"c3", "scale", "a"⟩] id [2, 0, 3, 1]
+    = .ok [⟨"c0", "/1/"⟩, ⟨"c1", "Ax"⟩, ⟨"c2", "/3/"⟩, ⟨"c3", "oslo/0/"⟩] := by decide
+
+/-- (negation witness) one request object per tool instead of per call, pointer-typed
+    request, the calls of a message overlapping: every call of the tool answers from the
+    arguments of whichever call decoded last. -/
+theorem shared_request_breaks :
+    let calls : List Call := [⟨"c0", "scale", "n1"⟩, ⟨"c1", "scale", "n2"⟩, ⟨"c2", "scale", "n3"⟩]
+    invoke exFacts (mixedTools { freshPerCall := false } exParse [] calls [0, 2, 1] exMixed)
+      none true calls id [0, 1, 2]
+      = .ok [⟨"c0", "/2/"⟩, ⟨"c1", "/2/"⟩, ⟨"c2", "/2/"⟩] := by decide
+
+/-- (negation witness) … and without any overlap: a call that leaves a field out finds the
+    value an earlier message put there. -/
+theorem stale_field_breaks :
+    let calls : List Call := [⟨"c0", "scale", "a"⟩]
+    invoke exFacts (mixedTools { freshPerCall := false } exParse [⟨"p0", "scale", "n2u"⟩] calls [0] exMixed)
+      none true calls id [0]
+      = .ok [⟨"c0", "oslo/2/F"⟩] := by decide
 
 end EinoV.C17
